@@ -39,7 +39,22 @@ def rel_close(a, b, rtol, atol):
     return abs(a - b) <= atol + rtol * max(abs(a), abs(b))
 
 
-def compare_rel(ctx, clause, case, A, B, fx, rows=None, rtol=1e-9, atol=1e-9, skip_lost=True):
+def on_vertex_sheets(desc, A, r):
+    """domain of the re-description relations: the ray meets every curved surface well inside the part of the
+    quadric that the sag formula describes (footprint radius <= |R|/2); beyond that the root selected by the code
+    (nearest to the vertex plane among the forward ones) depends on where the ray starts, which a dummy surface,
+    a split gap or a re-anchored frame legitimately changes (far sheets are outside C02's domain as well)"""
+    for j, su in enumerate(desc['surfaces']):
+        R = su.get('radius', 'inf')
+        if R in ('inf', 'Infinity') or (isinstance(R, float) and math.isinf(R)) or j >= A['x'].shape[0]:
+            continue
+        x, y = float(A['x'][j, r]) - float(su.get('dx', 0.0)), float(A['y'][j, r]) - float(su.get('dy', 0.0))
+        if math.isfinite(x) and math.isfinite(y) and x * x + y * y > 0.25 * float(R) ** 2:
+            return False
+    return True
+
+
+def compare_rel(ctx, clause, case, A, B, fx, rows=None, rtol=1e-9, atol=1e-9, skip_lost=True, desc=None):
     """A, B record dicts; fx maps (field, value of A) -> expected value in B; rows = list of (rowA,rowB)"""
     if isinstance(A, tuple) or isinstance(B, tuple):
         if isinstance(A, tuple) != isinstance(B, tuple):
@@ -47,8 +62,15 @@ def compare_rel(ctx, clause, case, A, B, fx, rows=None, rtol=1e-9, atol=1e-9, sk
         return
     nsA = A['x'].shape[0]
     rows = rows or [(j, j) for j in range(nsA)]
+    outside = set()
+    if desc is not None:
+        outside = {r for r in range(A['x'].shape[1]) if not on_vertex_sheets(desc, A, r)}
+        if outside:
+            ctx.count('rel: rays beyond |R|/2 on some surface (outside the domain)', len(outside))
     for ja, jb in rows:
         for r in range(A['x'].shape[1]):
+            if r in outside:
+                continue
             va = [A[f][ja, r] for f in GEO]
             vb = [B[f][jb, r] for f in GEO]
             if not all(math.isfinite(v) for v in va) or not all(math.isfinite(v) for v in vb):
@@ -147,7 +169,7 @@ def t_dummy(ctx, rng, desc):
     n = len(desc['surfaces'])
     rows = [(j, j if j <= g else j + 1) for j in range(n)]
     compare_rel(ctx, 'dummy surface between equal media changes nothing downstream', case, A, B,
-                lambda f, v: v, rows=rows, rtol=1e-9, atol=1e-9)
+                lambda f, v: v, rows=rows, rtol=1e-9, atol=1e-9, desc=desc)
 
 
 def t_wavelength(ctx, rng, desc):
@@ -225,7 +247,7 @@ def t_scale(ctx, rng, desc):
     B = traced_explicit(o2, A, w, scale=s) if decentred else traced(o2, 0.0, Hy, px, py, w)
     tol = 1e-9 if conic_only else 2e-5
     compare_rel(ctx, 'scaling all lengths by s scales positions and paths by s, keeps direction cosines', case, A, B,
-                lambda f, v: v * s if f in ('x', 'y', 'z', 'opd') else v, rtol=tol, atol=tol * max(1.0, s))
+                lambda f, v: v * s if f in ('x', 'y', 'z', 'opd') else v, rtol=tol, atol=tol * max(1.0, s), desc=desc)
     if decentred:
         return s
     try:
@@ -327,7 +349,14 @@ def work(ctx, seeds):
     import random as _r
     drv = Driver()
     lines, keep = [], []
+    orig_fail = ctx.fail
+    cur = {'sd': None}
+
+    def fail(clause, case, *a, **k):      # every recorded case carries the seed that regenerates it (replay)
+        return orig_fail(clause, dict(case, work_seed=cur['sd']), *a, **k)
+    ctx.fail = fail
     for sd in seeds:
+        cur['sd'] = sd
         rng = _r.Random(sd)
         d = lensgen.gen_lens(rng, allow_asphere=rng.random() < 0.25, allow_tilt=rng.random() < 0.2,
                              nsurf=rng.randint(1, 9), finite_object=rng.random() < 0.3)
@@ -353,6 +382,7 @@ def work(ctx, seeds):
         for f in ('z', 'radius', 'conic'):
             ctx.cmp_list('scale_system.' + f, snap[f], m[f], case, rtol=1e-12, atol=1e-12)
         ctx.cmp('scale_system.EPD', apv, unhex(last.split()[-1]), case, rtol=1e-12)
+    del ctx.fail            # the instance attribute (a local closure) must not travel back through pickle
 
 
 def run(tier, seed, replay=None):
@@ -365,8 +395,13 @@ def run(tier, seed, replay=None):
     n = 200 if ctx.quick() else 10000
     import random as _r
     seeds = [ctx.rng.randint(0, 2 ** 31) for _ in range(n)]
+    if replay:
+        if 'work_seed' not in replay:
+            print('C07: this replay file carries no work_seed (written by an older version): nothing to re-run')
+            return 2
+        seeds = [replay['work_seed']]
     from .core import run_parallel
-    run_parallel(ctx, 'harness.c07', 'work', seeds, nproc=4 if ctx.quick() else None)
+    run_parallel(ctx, 'harness.c07', 'work', seeds, nproc=(4 if ctx.quick() else None) if not replay else 1)
     return finish(ctx, aud,
                   partial=['whole-lens lifts are theorems for mirror (plane, conic, even asphere), scale (plane, conic; '
                            'k = 0 or wavelength scaled too) and dummy plane (untilted, next surface plane/conic); '
